@@ -6471,6 +6471,10 @@ func (lex *Lexer) Lex() *token.Token {
 			goto tr281
 		case 69:
 			goto st68
+		case 66:
+			goto st75
+		case 88:
+			goto st76
 		case 95:
 			goto st74
 		case 98:
@@ -20434,6 +20438,10 @@ func (lex *Lexer) Lex() *token.Token {
 	st_case_508:
 		// line internal/scanner/scanner.go:18946
 		switch lex.data[(lex.p)] {
+		case 66:
+			goto st107
+		case 88:
+			goto st108
 		case 95:
 			goto st106
 		case 98:
